@@ -2,7 +2,7 @@
 //! the observed values. No comparison happens here; Trace_MpqCrypto.tla decides.
 use wverif_common::*;
 use wow_mpq::crypto::{
-    decrypt_block, decrypt_dword, encrypt_block, hash_string, hash_type, het_hash, ASCII_TO_LOWER,
+    decrypt_block, decrypt_dword, encrypt_block, hash_string, hash_type, het_hash, jenkins_hash, ASCII_TO_LOWER,
     ASCII_TO_UPPER, ENCRYPTION_TABLE,
 };
 use wow_mpq::{decrypt_file_data, ArchiveBuilder};
@@ -152,6 +152,7 @@ fn main() {
                     let l = if i < 30 { i as u64 + 1 } else { rng.range(1, 70) };
                     let s: String = (0..l).map(|_| *rng.pick(&alphabet)).collect();
                     for sp in [s.clone(), s.to_ascii_uppercase(), s.to_ascii_lowercase().replace('\\', "/")] {
+                        out.ev(json!({"ev":"Oaat","case":case,"b":sp.as_bytes(),"v":limbs64(jenkins_hash(&sp))}));
                         for &bits in &widths {
                             let (file, name1) = het_hash(&sp, bits);
                             out.ev(json!({"ev":"Het","case":case,"b":sp.as_bytes(),"bits":bits,"file":limbs64(file),"name1":name1}));
